@@ -32,6 +32,7 @@ import PercevalModel.Lemmas.C08Tree
 import PercevalModel.Lemmas.C08MinP
 import PercevalModel.Lemmas.C08Heralds
 import PercevalModel.Lemmas.C08Leaf
+import PercevalModel.Lemmas.C08Post
 import PercevalModel.Model.C08Glue
 import Mathlib.Algebra.Order.Field.Rat
 
@@ -837,6 +838,160 @@ theorem bsTree_leaf_law_from_fock_general {K : Type} [Field K] [LinearOrder K] [
 
 end fockTree
 
+/-! ## the whole tail of `probs_svd` inside the model: `normalize()`, `simulate_detectors`,
+`post_select_distribution` (heralds + PostSelect on the readings, removal of the heralded modes), `logical_perf` -/
+section fullTail
+variable {K : Type} [Field K] [LinearOrder K] [IsStrictOrderedRing K]
+
+open PM.SimSpec (PS)
+
+/-- **`post_select_distribution` is conditioning.** On every dictionary (no repeated key) of states of one length,
+for every PostSelect expression, herald set and `keep_heralds`: the assignment `result[state] = prob` never
+overwrites an entry, the result is the list of the accepted entries (heralds satisfied AND expression true, read on
+the keys of the dictionary, i.e. on the detector READINGS) filed under their reported states, normalised; the
+logical performance is `1 -` the mass of the rejected entries. -/
+theorem post_select_is_conditioning (ps : PS) (h : List (ℕ × ℕ)) (keep : Bool) (d : Dist (List ℕ) K) (n : ℕ)
+    (hnd : (keys d).Nodup) (hlen : KeysLen d n) :
+    postSelect ps h keep d = (normalize (selected ps h keep d), 1 - mass (rejected ps h d)) :=
+  postSelect_eq ps h keep d n hnd hlen
+
+/-- two accepted readings of the same length are never merged by the removal of the heralded modes -/
+theorem reported_state_injective (ps : PS) (h : List (ℕ × ℕ)) (keep : Bool) {t t' : List ℕ}
+    (hl : t.length = t'.length) (ha : accepted ps h t = true) (ha' : accepted ps h t' = true)
+    (he : reportState h keep t = reportState h keep t') : t = t' :=
+  reportState_inj ps h keep hl ha ha' he
+
+/-- **physical_perf · logical_perf · result = the conditioned specification law** (imperfect detectors).
+For every list of constructible detectors whose global type is not PNR, every normalised non-negative
+theoretical distribution `base` over states of the right length, photon filter, compatible herald set,
+PostSelect expression and `keep_heralds`, `probs_svd` (model `probsSvd`, at `min_p ≤ 0`) returns `out` with
+* `physical_perf` = the mass of the readings law that passes the photon filter,
+* `logical_perf`  = the share of that retained mass whose READINGS satisfy the heralds and the expression,
+* for every reading `t` that passes the filter and is accepted:
+  `physical_perf · logical_perf · results[reported t] = ∑_{(s,p) ∈ base} p · ∏_i kernel_i(s_i)(t_i)`,
+  the probability the property statement gives to reading `t`; every theoretical state `s` contributes, whatever
+  its photon count in the heralded modes. -/
+theorem probs_svd_conditioned_law {minP : K} (hmin : minP ≤ 0) (ds : List (AnyDet K))
+    (hwf : ∀ d ∈ ds, d.WF) (base : Dist (List ℕ) K) (hnn : Nonneg base)
+    (hlen : ∀ e ∈ base, e.1.length = ds.length) (hmass : mass base = 1) (minPhotons : Option ℕ)
+    (h : List (ℕ × ℕ)) (ps : PS) (keep : Bool) (hchk : checkHeralds h ds = .ok true)
+    (hty : detectionType ds ≠ .PNR) (hR : mass (simulateRaw minP base ds minPhotons).1 ≠ 0) :
+    ∃ out, probsSvd minP base ds minPhotons h ps keep = .ok out ∧
+      out.phys = mass (simulateRaw minP base ds minPhotons).1 ∧
+      out.logical = mass ((simulate minP base ds minPhotons).1.filter fun e => accepted ps h e.1) ∧
+      ∀ t : List ℕ, t.length = ds.length → accepted ps h t = true → belowFilter minPhotons t = false →
+        out.logical ≠ 0 →
+        out.phys * out.logical * prob out.results (reportState h keep t)
+          = (base.map fun e => e.2 * kprod (kernels minP ds e.1) t).sum := by
+  have hne : base.isEmpty = false := by
+    cases base with
+    | nil => simp at hmass
+    | cons e l => rfl
+  have hbr : ¬ (base.isEmpty ∨ detectionType ds = .PNR) := by
+    rw [hne]; simpa using hty
+  have hmask : useMask h ds = false := by
+    unfold useMask; simp [hty]
+  obtain ⟨_, _, hphys, hS1⟩ := simulate_detectors_mass hmin ds hwf base hnn hlen minPhotons
+  have hS1 := hS1 hbr hR
+  have hphys := hphys hmass
+  have hnd : (keys (simulate minP base ds minPhotons).1).Nodup := by
+    simp only [simulate, if_neg hbr]
+    rw [keys_normalize]
+    simp only [simulateRaw, if_neg hbr]
+    split
+    · exact simThreshold_nodup minPhotons base
+    · exact simGeneral_nodup minP minPhotons ds base
+  have hkl := simulate_keysLen minP base ds minPhotons hlen
+  obtain ⟨hlog, hprob⟩ := postSelect_core ps h keep _ ds.length hnd hkl hS1
+  refine ⟨⟨(postSelect ps h keep (simulate minP base ds minPhotons).1).1,
+    1 * (simulate minP base ds minPhotons).2,
+    mass base * (postSelect ps h keep (simulate minP base ds minPhotons).1).2⟩, ?_, ?_, ?_, ?_⟩
+  · unfold probsSvd
+    rw [hchk]
+    simp only [hmask, Bool.false_eq_true, if_false, normalize_of_mass_one base hmass, hne]
+  · simp only [one_mul]; exact hphys
+  · simp only [hmass, one_mul]; exact hlog
+  · intro t ht hacc hpass hA
+    simp only [hmass, one_mul] at hA ⊢
+    rw [hlog] at hA
+    rw [hprob t ht hacc hA, hlog, hphys, simulate_detectors_normalised minP ds base minPhotons hbr hR t,
+      simulate_detectors_pointwise hmin ds hwf base hnn hlen minPhotons hbr t, hpass]
+    simp only [Bool.false_eq_true, if_false]
+    field_simp
+
+/-- **the same identity on the all-PNR path** (no detector / unset / `Detector.pnr()` only), where `probs_svd` lets
+the backend apply the heralds as a mask: `raw` is what the backend returns (the herald-selected part of the
+theoretical dictionary `base` when there are heralds, all of it otherwise), `_logical_perf` starts as its mass and the
+photon filter is not applied by `simulate_detectors` (as coded). For every accepted state `t`:
+`physical_perf · logical_perf · results[reported t] = base[t]`, with `physical_perf = 1` and
+`logical_perf` = the accepted mass of `base`. -/
+theorem probs_svd_pnr_conditioned_law (minP : K) (ds : List (AnyDet K)) (base : Dist (List ℕ) K) (n : ℕ)
+    (hnd : (keys base).Nodup) (hlen : KeysLen base n) (minPhotons : Option ℕ)
+    (h : List (ℕ × ℕ)) (ps : PS) (keep : Bool) (hchk : checkHeralds h ds = .ok true)
+    (hty : detectionType ds = .PNR)
+    (hM : mass (if useMask h ds then selectHeralds h base else base) ≠ 0) :
+    ∃ out, probsSvd minP base ds minPhotons h ps keep = .ok out ∧
+      out.phys = 1 ∧
+      out.logical = mass ((if useMask h ds then selectHeralds h base else base).filter
+        fun e => accepted ps h e.1) ∧
+      ∀ t : List ℕ, t.length = n → accepted ps h t = true → out.logical ≠ 0 →
+        out.phys * out.logical * prob out.results (reportState h keep t) = prob base t := by
+  set raw := (if useMask h ds then selectHeralds h base else base) with hraw
+  have hrnd : (keys raw).Nodup := by
+    rw [hraw]; split
+    · exact keys_filter_nodup _ base hnd
+    · exact hnd
+  have hrkl : KeysLen raw n := by
+    rw [hraw]; split
+    · exact hlen.filter _
+    · exact hlen
+  have hresnd : (keys (normalize raw)).Nodup := by rw [keys_normalize]; exact hrnd
+  have hres1 : mass (normalize raw) = 1 := mass_normalize raw hM
+  have hresne : (normalize raw).isEmpty = false := by
+    cases hr : normalize raw with
+    | nil => rw [hr] at hres1; simp at hres1
+    | cons e l => rfl
+  have hsim : simulate minP (normalize raw) ds minPhotons = (normalize raw, 1) :=
+    simulate_pnr_identity minP _ ds minPhotons (Or.inr hty)
+  obtain ⟨hlog, hprob⟩ := postSelect_core ps h keep (normalize raw) n hresnd hrkl.normalize hres1
+  have hfilt : mass ((normalize raw).filter fun e => accepted ps h e.1)
+      = mass (raw.filter fun e => accepted ps h e.1) / mass raw := by
+    unfold normalize
+    rw [if_neg hM]
+    generalize mass raw = c
+    induction raw with
+    | nil => simp
+    | cons e l ih =>
+      simp only [List.map_cons]
+      by_cases hp : accepted ps h e.1 = true
+      · rw [List.filter_cons_of_pos (by simpa using hp), List.filter_cons_of_pos (by simpa using hp)]
+        simp only [mass_cons, ih]; ring
+      · rw [List.filter_cons_of_neg (by simpa using hp), List.filter_cons_of_neg (by simpa using hp)]
+        exact ih
+  refine ⟨⟨(postSelect ps h keep (normalize raw)).1, 1 * 1,
+    mass raw * (postSelect ps h keep (normalize raw)).2⟩, ?_, ?_, ?_, ?_⟩
+  · unfold probsSvd
+    rw [hchk]
+    simp only [← hraw, hresne, Bool.false_eq_true, if_false, hsim]
+  · simp
+  · simp only []
+    rw [hlog, hfilt]; field_simp
+  · intro t ht hacc hA
+    simp only [] at hA ⊢
+    have hA' : mass ((normalize raw).filter fun e => accepted ps h e.1) ≠ 0 := by
+      intro h0; apply hA; rw [hlog, h0, mul_zero]
+    rw [hprob t ht hacc hA', hlog, prob_normalize raw t hM]
+    have hbase : prob raw t = prob base t := by
+      rw [hraw]; split
+      · rw [prob_selectHeralds]
+        simp only [accepted, Bool.and_eq_true] at hacc
+        rw [if_pos hacc.1]
+      · rfl
+    rw [hbase]
+    field_simp
+
+end fullTail
+
 /-! ## non-vacuity and concrete values (evaluated by the kernel over ℚ) -/
 section examples
 
@@ -941,6 +1096,70 @@ example :
     rcases he with rfl | rfl <;> rfl
   · simp [detectionType, detTypeLoop, AnyDet.type, Det.type]
 
+/-- `bsTree_leaf_law_from_fock` / `tree_circuit_path_weights` / `bsTree_leaf_law_from_fock_general`: hypotheses
+satisfiable — reflectivity `9/25` with amplitudes `c = 3/5`, `s = 4i/5` in ℚ[i] -/
+example : GQ.normSq ⟨3 / 5, 0⟩ = (9 / 25 : ℚ) ∧ GQ.normSq ⟨0, 4 / 5⟩ = 1 - (9 / 25 : ℚ) := by
+  constructor <;> norm_num [GQ.normSq]
+
+example : nsq (⟨3 / 5, 0⟩ : GQ) = GQ_ofRatHom (9 / 25) ∧ nsq (⟨0, 4 / 5⟩ : GQ) = GQ_ofRatHom (1 - 9 / 25) ∧
+    nsq (⟨0, 4 / 5⟩ : GQ) = 1 - GQ_ofRatHom (9 / 25) := by
+  refine ⟨?_, ?_, ?_⟩ <;> (ext <;> simp [nsq, GQ.ofRat, sub_eq_add_neg] <;> norm_num)
+
+/-- a value of the first column: depth 2, leaf 3 (bits 11) has amplitude `s·s = (4i/5)² = -16/25` -/
+example : treeU (⟨3 / 5, 0⟩ : GQ) ⟨0, 4 / 5⟩ 2 ⟨3, by norm_num⟩ ⟨0, Nat.two_pow_pos 2⟩ = ⟨-16 / 25, 0⟩ := by
+  rw [tree_circuit_first_column]
+  ext <;> simp [onesL, pow_two] <;> norm_num
+
+/-- `single_mode_amplitude` & co: a state with `n` photons exists for the single-mode input -/
+example : ([1, 0, 2, 0] : List ℕ).sum = 3 ∧ ([1, 0, 2, 0] : List ℕ).length = 2 ^ 2 := by decide
+
+/-- `probs_svd_conditioned_law`: hypotheses satisfiable — two photons on `Detector.ppnr(2)`, herald expecting the
+reading 1 on that mode (the readings law is `{|1>: 1/2, |2>: 1/2}`, retained mass 1) -/
+example :
+    let ds : List (AnyDet ℚ) := [.det (.wired 2 2)]
+    let base : Dist (List ℕ) ℚ := [([2], 1)]
+    (0 : ℚ) ≤ 0 ∧ (∀ d ∈ ds, d.WF) ∧ Nonneg base ∧ (∀ e ∈ base, e.1.length = ds.length) ∧ mass base = 1 ∧
+      checkHeralds [(0, 1)] ds = .ok true ∧ detectionType ds ≠ .PNR ∧
+      mass (simulateRaw (0 : ℚ) base ds none).1 ≠ 0 ∧
+      accepted PM.SimSpec.PS.tt [(0, 1)] [1] = true ∧ belowFilter none [1] = false := by
+  have h : detectWired 2 2 (0 : ℚ) 2 = [(1, 1 / 2), (2, 1 / 2)] := by
+    norm_num [detectWired, detectLoop, List.range', addP, bump, condProb]
+  have hd : (Det.wired 2 2).detect (0 : ℚ) 2 = .dist [(1, 1 / 2), (2, 1 / 2)] := by
+    rw [detect_wired_big 2 2 0 (by omega) (by omega), h]
+  have hty : detectionType ([.det (.wired 2 2)] : List (AnyDet ℚ)) = .PPNR := by
+    simp [detectionType, detTypeLoop, AnyDet.type, Det.type]
+  refine ⟨le_refl _, ?_, ?_, ?_, ?_, rfl, ?_, ?_, ?_, rfl⟩
+  · intro d hd'
+    simp only [List.mem_cons, List.not_mem_nil, or_false] at hd'
+    subst hd'
+    show 0 < 2; omega
+  · intro e he
+    simp only [List.mem_cons, List.not_mem_nil, or_false] at he
+    subst he; norm_num
+  · intro e he
+    simp only [List.mem_cons, List.not_mem_nil, or_false] at he
+    subst he; rfl
+  · norm_num [mass]
+  · rw [hty]; decide
+  · simp [simulateRaw, hty, simGeneral, simState, stateDist, listTensor, AnyDet.kernel, AnyDet.detect, hd,
+      DetOut.toDist, belowFilter, addP, bump, mass]
+  · simp [accepted, heraldsOk, PM.SimSpec.PS.eval]
+
+/-- `probs_svd_pnr_conditioned_law` / `post_select_is_conditioning`: hypotheses satisfiable — the dictionary
+`{|1,1>: 1/2, |2,0>: 1/2}` with the herald `{0: 1}`, no detector -/
+example :
+    let base : Dist (List ℕ) ℚ := [([1, 1], 1 / 2), ([2, 0], 1 / 2)]
+    (keys base).Nodup ∧ KeysLen base 2 ∧ checkHeralds [(0, 1)] ([] : List (AnyDet ℚ)) = .ok true ∧
+      detectionType ([] : List (AnyDet ℚ)) = .PNR ∧
+      mass (if useMask [(0, 1)] ([] : List (AnyDet ℚ)) then selectHeralds [(0, 1)] base else base) ≠ 0 ∧
+      accepted PM.SimSpec.PS.tt [(0, 1)] [1, 1] = true := by
+  refine ⟨by simp [keys], ?_, rfl, rfl, ?_, ?_⟩
+  · intro e he
+    simp only [List.mem_cons, List.not_mem_nil, or_false] at he
+    rcases he with rfl | rfl <;> rfl
+  · simp [useMask, detectionType, selectHeralds, heraldsOk, mass]
+  · simp [accepted, heraldsOk, PM.SimSpec.PS.eval]
+
 /-- `check_heralds_*`: a herald of 3 photons on `Detector.ppnr(2)` exceeds it (result `False`), a
 herald of 2 does not (`True`), a herald on a mode outside the list raises -/
 example :
@@ -969,8 +1188,11 @@ example : mkDetector (some 3) none = .ok (.wired 3 3) ∧ (0 : ℚ) ≤ 0 ∧ (1
 
 /-
   STILL NOT PROVED (validated by the correspondence only):
-  * that the native SLOS backend returns, on `BSLayeredPPNR.create_circuit()`, the multinomial leaf law
-    `treeOcc` (a statement about compiled code outside the model — compared on every run);
+  * that the native SLOS backend implements the Fock amplitude specification `perm(U[t|s])/√(∏s!∏t!)` on
+    `BSLayeredPPNR.create_circuit()` (compiled code outside the model; property C02 is about exactly that). GIVEN
+    the specification, the multinomial leaf law `treeOcc` is now a THEOREM (`bsTree_leaf_law_from_fock`), no longer an
+    assumption; the model of `create_circuit()`/`compute_unitary()` (`treeU`) is compared with the real unitary on
+    every run;
   * for `min_p > 0`: a pointwise bound for the NORMALISED result and for `phys_perf` alone (proved are:
     the un-normalised pointwise bound `simulate_detectors_minp_bound`, the mass/performance balance
     `simulate_detectors_mass_minp`, the exact laws `simulate_detectors_pointwise_minp` /
@@ -978,9 +1200,9 @@ example : mkDetector (some 3) none = .ok (.wired 3 3) ∧ (0 : ℚ) ≤ 0 ∧ (1
     which such a bound follows by dividing — not carried out);
   * `sample_law_is_kernel_product` for `min_p > 0`; `prob_threshold > 0`; the statistical quality of
     `BSDistribution.sample`;
-  * `Model/C08Glue.lean` takes the theoretical distribution `base` of the backend as given and stops before the
-    final `normalize()`, the removal of the heralded modes and the PostSelect expression (applied by the harness);
-    the logical performance is not modelled (compared with the exact oracle on every run).
+  * `probsSvd` (`Model/C08Glue.lean`) takes the theoretical distribution `base` of the backend as given, for ONE Fock
+    input of a perfect source; `probs_svd_conditioned_law` is stated at `min_p ≤ 0` (at the shipped `1e-16` the
+    deviation is bounded by `simulate_detectors_minp_bound`); noisy / mixed inputs belong to C03–C05.
 -/
 
 end examples
